@@ -27,7 +27,7 @@ COQ_FALLBACK = ("Model.C12", "spec_ok")
 COQ_IMPORTS = ""
 SHARD = 150
 EXHAUSTIVE = {}
-RULE = ("masks of shape 1x1..7x8, 6% up to 21x24 (mostly non-square; styles: random density 0.15-0.9, single pixel, ring with hole, full, two "
+RULE = ("masks of shape 1x1..7x8, 6% up to 21x20 (mostly non-square; styles: random density 0.15-0.9, single pixel, ring with hole, full, two "
         "components, outer-ring pixels, circular), pixel scales (py, px) in {1/4,1/2,1,3/2,2,3}^2 (often unequal), in 30% of the cases "
         "times 2^e with e in {-30,-27,10,20} per axis (tiny and huge magnitudes, 40% of them with a different e per axis), origin o = "
         "(py*a/4, px*b/4) and translation d = (py*e/4, px*f/4), a,b,e,f in -12..12, d != 0 (sometimes o = 0, sometimes one component "
@@ -358,7 +358,7 @@ def gen_inputs(tier, rng):
         for op in GRID_OPS:
             H, W = rng.randint(1, 7), rng.randint(1, 8)
             if rng.random() < 0.15: W = H
-            if rng.random() < 0.06 and not op.startswith("ds_") and op not in ("rect_mapper", "rescaled"): H, W = rng.randint(9, 21), rng.randint(9, 24)      # (h) larger frames
+            if rng.random() < 0.06 and not op.startswith("ds_") and op not in ("rect_mapper", "rescaled"): H, W = rng.randint(9, 21), rng.randint(9, 20)      # (h) larger frames
             style = rng.choice(STYLES)
             # (the radial projection steps along x with the pixel scale of the longer axis: the two scales must be commensurable
             # for the sums to be exact in doubles, so both axes get the same power of two there)
@@ -845,7 +845,8 @@ def op_scaled_of_pixels(aa, m, ps, o, dd, prm):
 def op_rect_mapper(aa, m, ps, o, dd, prm):
     """MapperRectangular on the (translated) unmasked grid of the mask, mesh = Mesh2DRectangular.overlay_grid"""
     sy, sx = prm["shape"]; buf = prm["buffer"]
-    via_mesh = prm.get("via_mesh") and sy >= 3 and sx >= 3          # (mesh.Rectangular wants at least 3 x 3)
+    via_mesh = prm.get("via_mesh")
+    if via_mesh: sy, sx = max(sy, 3), max(sx, 3)                    # (mesh.Rectangular wants at least 3 x 3)
     if via_mesh: buf = F(1, 10 ** 8)          # mesh.Rectangular.mesh_grid_from uses overlay_grid's default buffer
     mask = mk_mask(aa, m, ps, o)
     grid = mk_grid(aa, mask)
@@ -1001,8 +1002,18 @@ def seq_kind(vals, kind):
 CTOR_KINDS = ["grid_uniform", "grid_no_mask", "grid_from_yx_1d", "grid_from_yx_2d", "grid_bounding_box", "array_no_mask", "array_full",
               "array_ones", "array_zeros", "mask_all_false", "mask_from_pixel_coordinates", "kernel_no_mask", "kernel_ones", "kernel_full",
               "kernel_zeros", "vector_no_mask", "vector_full", "vector_ones", "vector_zeros"]
-def op_ctor(aa, m, ps, o, dd, prm):
-    H, W = len(m), len(m[0]); which = prm["which"]; kw = fkw(ps, o); k = CTX["pkind"]
+def multi(one):
+    """several variants per case (the structures of the run are shared by them)"""
+    def f(aa, m, ps, o, dd, prm):
+        coq, rel, show = [], [], []
+        for which in prm["which"]:
+            r = one(aa, m, ps, o, dd, prm, which)
+            coq += r["coq"]; rel += [("inv", which)] + r["rel"]; show.append(r["show"])
+        return {"coq": coq, "rel": rel, "show": str(show)}
+    return f
+
+def ctor_one(aa, m, ps, o, dd, prm, which):
+    H, W = len(m), len(m[0]); kw = fkw(ps, o); k = CTX["pkind"]
     full = [[False] * W for _ in range(H)]
     eg = exp_grid(H, W, ps, o); ys = [p[0] for p in eg]; xs = [p[1] for p in eg]
     vals = np.arange(1.0, H * W + 1.0).reshape(H, W)
@@ -1059,8 +1070,8 @@ def op_ctor(aa, m, ps, o, dd, prm):
 
 METHOD_KINDS = ["arr_resized", "arr_padded", "arr_trimmed", "arr_apply_mask", "grid_deflection", "grid_removed", "grid_extent",
                 "grid_blurring_kernel", "kernel_convolved", "derive_masks", "vector_on_mask"]
-def op_methods(aa, m, ps, o, dd, prm):
-    H, W = len(m), len(m[0]); which = prm["which"]
+def methods_one(aa, m, ps, o, dd, prm, which):
+    H, W = len(m), len(m[0])
     mask = mk_mask(aa, m, ps, o)
     coq = []; rel = []
     def derived(rm, tag=True):
@@ -1220,7 +1231,7 @@ OPS = {
     "pixel_grids": op_pixel_grids, "scaled_of_pixels": op_scaled_of_pixels, "rect_mapper": op_rect_mapper,
     "ds_apply_mask": op_ds("apply_mask"), "ds_noise_scaling": op_ds("noise_scaling"), "ds_over_sampling": op_ds("over_sampling"),
     "ds_trimmed": op_ds("trimmed"), "ds_simulate": op_ds("simulate"), "ds_s2n": op_ds("s2n"),
-    "ctor": op_ctor, "methods": op_methods, "util": op_util, "one_d": op_one_d, "ds_interferometer": op_ds_interferometer,
+    "ctor": multi(ctor_one), "methods": multi(methods_one), "util": op_util, "one_d": op_one_d, "ds_interferometer": op_ds_interferometer,
 }
 
 def span_shape(rng, m, axis):
@@ -1256,7 +1267,7 @@ PARAMS = {
     "pixel_coords": lambda rng, m, ps: {"pts": pts_for(rng, m, ps), "pix": [(F(rng.randint(-8, 40), 4), F(rng.randint(-8, 40), 4)) for _ in range(4)]},
     "pixel_grids": lambda rng, m, ps: {"pts": pts_for(rng, m, ps)},
     "scaled_of_pixels": lambda rng, m, ps: {"pix": [(F(rng.randint(-8, 40), 4), F(rng.randint(-8, 40), 4)) for _ in range(5)]},
-    "rect_mapper": lambda rng, m, ps: {"shape": (span_shape(rng, m, 0), span_shape(rng, m, 1)), "via_mesh": rng.random() < 0.35,
+    "rect_mapper": lambda rng, m, ps: {"shape": (span_shape(rng, m, 0), span_shape(rng, m, 1)), "via_mesh": rng.random() < 0.5,
                                        "buffer": min(ps) / 2 if rng.random() < 0.85 else F(1, rng.choice([2, 16, 1024]))},
     "ds_apply_mask": lambda rng, m, ps: {"vals": vals(rng, m), "psf": rng.random() < 0.3 and ps[0] == ps[1]},
     "ds_noise_scaling": lambda rng, m, ps: {"vals": vals(rng, m), "plain": rng.random() < 0.6},
@@ -1264,8 +1275,8 @@ PARAMS = {
     "ds_trimmed": lambda rng, m, ps: {"vals": vals(rng, m), "k": (odd(rng, min(5, len(m))), odd(rng, min(5, len(m[0])))), "masked": rng.random() < 0.5},
     "ds_simulate": lambda rng, m, ps: {"vals": vals(rng, m), "poisson": rng.random() < 0.4},
     "ds_s2n": lambda rng, m, ps: {"vals": vals(rng, m)},
-    "ctor": lambda rng, m, ps: {"which": rng.choice(CTOR_KINDS), "native": rng.random() < 0.5, "buffer": rng.random() < 0.5},
-    "methods": lambda rng, m, ps: {"which": rng.choice(METHOD_KINDS), "shape": (rng.randint(1, 9), rng.randint(1, 9)), "pad": rng.choice([0.0, 0.0, 1.0]),
+    "ctor": lambda rng, m, ps: {"which": rng.sample(CTOR_KINDS, 5), "native": rng.random() < 0.5, "buffer": rng.random() < 0.5},
+    "methods": lambda rng, m, ps: {"which": rng.sample(METHOD_KINDS, 3), "shape": (rng.randint(1, 9), rng.randint(1, 9)), "pad": rng.choice([0.0, 0.0, 1.0]),
                                    "k": (odd(rng, 7), odd(rng, 7)), "k3": (3, 3) if rng.random() < 0.6 else (odd(rng, 3), odd(rng, 3)),
                                    "defl": [(rng.randint(-8, 8), rng.randint(-8, 8)) for _ in range(len(m) * len(m[0]))],
                                    "coords": [(ps[0] * F(rng.randint(-12, 12), 4), ps[1] * F(rng.randint(-12, 12), 4)) for _ in range(rng.randint(1, 3))],
